@@ -120,7 +120,9 @@ def contracts(reg):
         lvl = cfg.fields.get("parallel_level")
         if is_z3(lvl) or lvl == 1:
             cfg.fields["ranges"] = S.fresh_symlist(cfg.fields["size"], width=2, prefix="ranges")
-        return Range(S.fresh_int("blk_lo"), S.fresh_int("blk_hi"))
+        r_ = Range(S.fresh_int("blk_lo"), S.fresh_int("blk_hi"))
+        r_.distributed = True        # ghost: what a loop over this range writes is a per-process partial result
+        return r_
 
     reg.add(Contract(
         PAR + "block_distributed_range", setup=setup_bdr, ghost=ghost_cfg, requires=CFG_OK, raises=RAISES,
@@ -358,6 +360,17 @@ def plan(ctx):
                    PAR + "block_distributed_array", PAR + "block_distributed_array#return_index"]
     p.lemmas = [lemma_partition_gives_sum_hyps]
     p.lean = [lean.bridge_lemma("blocks_sum", SUM_TYPES, SUM_HYPS, SUM_CONCL, SUM_PROOF)]
+    # consumers of the helpers: every array written inside a block-distributed loop must be sum-reduced before the
+    # parallel region is closed (ghost protocol installed by props.common.add_parallel_contracts); the consumer
+    # functions are re-verified here with their C01 contracts so that the protocol obligations belong to this property
+    import props.C01 as C01
+    from props.common import add_parallel_contracts
+    C01.contracts(ctx.registry)
+    C01.contracts2(ctx.registry)
+    add_parallel_contracts(ctx.registry)
+    RT = "quantarhei/qm/liouvillespace/redfieldtensor.py::"
+    p.functions += [RT + "RedfieldRelaxationTensor._implementation#operators", RT + "RedfieldRelaxationTensor._implementation#tensor",
+                    RT + "RedfieldRelaxationTensor._convert_operators_2_tensor"]
     p.replayers = [replayer]
     p.oracles = ["native/oracle_C20.py"]
     p.trusted = ["MPI itself (Allreduce = elementwise sum over ranks) is not modelled; the partition lemma is what "
